@@ -39,7 +39,7 @@ def idsStr (l : List Nat) : String := natListStr (sortN l)
 
 def outStr : Out → String
   | .mcast a b => s!"m:{idsStr a}:{idsStr b}"
-  | .ucast addr port id echo a b => s!"u:{addr}:{port}:{id}:{if echo then 1 else 0}:{idsStr a}:{idsStr b}"
+  | .ucast addr port id nq a b => s!"u:{addr}:{port}:{id}:{nq}:{idsStr a}:{idsStr b}"
 
 def drawStr (d : Draw) : String := s!"{d.lo}/{d.hi}/{d.v}"
 
